@@ -149,3 +149,6 @@ def apply(repo, report):
             n += 1
             report.ob(rid, f"[{o.rule}] {o.construct}", None if o.state == "UNRECOGNISED" else o.state == "DISCHARGED", facts=o.facts, expected=o.expected, loc=o.loc, why=o.why or "", cases=o.cases)
         report.floor(rid, f"obligations of {modname}.{fname} ({why})", n, 1)
+
+
+_extend("C14", [("c11", "r2_quality_base", ("C14.X",), ALL, "the expected-error value is the sum of 10^(-Q/10) with Q decoded by the configured quality base")])
